@@ -37,7 +37,9 @@ ING = {
     "t10": dict(rules=[], tls=[T("c1", H1)]),                      # tls only
     "t11": dict(rules=[R(H1, P("/a", "s1", "prefix"), P("/a", "s2", "exact"))]),
     "t12": dict(rules=[R(H2, P("/", "s1", "", "http"))]),          # named port
+    "t13": dict(rules=[R("*.h1.local", P("/", "s2"))], tls=[T("c1", "*.h1.local")]),   # wildcard host (C15 only)
 }
+CORE_NOWILD = ["t%d" % i for i in range(1, 13)]
 
 EPS = {  # endpoint sets: (ready, notready)
     "e0": ([], []),
@@ -221,6 +223,19 @@ def random_history(rng, hid, steps=6, ext=False, shards=None, batch=3, slots=3, 
 
 # ------------------------------------------------------------------ TLA+ view of the core vocabulary
 
+REQ_PATHS = ["/", "/a", "/a/", "/a/b", "/a/b/c", "/ab", "/A", "/x"]
+REQ_SNI = [(H1, ""), (H2, ""), ("a.h1.local", "*.h1.local"), ("b.a.h1.local", ""), ("x.local", ""), ("h1.local.x", "")]
+REQ_HOSTS = [(H1, H1), (H2, H2), (H1, "H1.LOCAL"), ("x.local", "x.local")]
+
+
+def _chars(s):
+    return "<<%s>>" % ", ".join('"%s"' % c for c in s)
+
+
+def _all_paths():
+    return {p["path"] for d in ING.values() for r in d.get("rules", []) for p in r["paths"]}
+
+
 def _ty(t):
     return {"": "begin", "impl": "begin"}.get(t, t)
 
@@ -262,6 +277,12 @@ def tla_universe():
             "EpsReady(e) ==\n    CASE " + j.join('e = "%s" -> {%s}' % (e, ", ".join('"%s"' % n for n in sorted(r))) for e, (r, _n) in EPS.items())
             + j + "OTHER -> {}", "",
             'InitEps(s) == IF s = "s1" THEN "e1" ELSE "e2"', "",
+            "EpsNotReady(e) ==\n    CASE " + j.join('e = "%s" -> {%s}' % (e, ", ".join('"%s"' % n for n in sorted(nr))) for e, (_r, nr) in EPS.items())
+            + j + "OTHER -> {}", "",
+            "PathChars(p) ==\n    CASE " + j.join('p = "%s" -> %s' % (pp, _chars(pp)) for pp in sorted(_all_paths())) + j + "OTHER -> <<>>", "",
+            "ReqPaths == <<%s>>" % ", ".join(_chars(pp) for pp in REQ_PATHS), "",
+            "ReqHosts == <<%s>>" % ", ".join('[name |-> "%s", chars |-> %s]' % (n, _chars(c)) for n, c in REQ_HOSTS), "",
+            "ReqSNI == <<%s>>" % ", ".join('[name |-> "%s", chars |-> %s, wild |-> "%s"]' % (n, _chars(n), w) for n, w in REQ_SNI), "",
             "AllTmplIds == {%s}" % ", ".join('"%s"' % t for t in ING), "",
             "============================================================================="]
     return "\n".join(out) + "\n"
